@@ -32,7 +32,8 @@ static void run_par(const std::string& cid, Toks& t) {
     int n = t.next_int(); std::vector<double> keys = t.nums(n);
     if (!LA.usable() || !LS.usable()) return;
     ParCSRMatrix* A = LA.csr(); ParCSRMatrix* S = LS.csr();
-    if (tap) S->tap_comm = new TAPComm(S->partition, S->off_proc_column_map, S->on_proc_column_map);
+    // tap 1: three-step node-aware package, tap 2: the two-step form (form_S = false)
+    if (tap) S->tap_comm = new TAPComm(S->partition, S->off_proc_column_map, S->on_proc_column_map, tap != 2);
     int first = S->partition->first_local_row;
     std::vector<double> w(S->local_num_rows > 0 ? S->local_num_rows : 1);
     for (int i = 0; i < S->local_num_rows; i++) w[i] = keys[first + i];
